@@ -94,6 +94,11 @@ fn feedback_families(th: bool, last_pos: &[Op], oracles: Vec<Oracle>) -> Vec<(Fa
   let mut fams = vec![];
   let mut p1 = vec![Node::Src(0)];
   p1.extend(depth1(last_pos));
+  if !needs_reference {
+    // ref_count()/replay() in the pipeline (for one subscriber; their reference semantics under feedback is C13's business)
+    p1.extend(connectable_pipelines(false));
+    p1.extend(connectable_pipelines(true));
+  }
   fams.push((Family { name: "feedback: a callback pushes into the hot source it is fed from, depth 0-1".into(), pipelines: p1, worlds: w1.clone(), oracles: oracles.clone() }, 1));
   let red = reduced_ops();
   let w1s: Arc<Vec<World>> = if th { w1.clone() } else { Arc::new(w1.iter().step_by(3).cloned().collect()) };
